@@ -205,17 +205,42 @@ func reaches(decls []*Stmt, from *Stmt, target string) bool {
 		}
 		seen[m.S] = true
 		s := src(m)
-		if strings.Contains(s, target+"(") {
+		// a reference is a call or the macro taken as a value (`var f = M2`): a scan of 1500 sets met a set
+		// in which M2 called M5, declared after it, and M5 called M2 through such a variable; gc ended with
+		// a stack overflow that took the whole batch with it
+		if refersTo(s, target) {
 			return true
 		}
 		for _, d := range decls {
-			if d != m && strings.Contains(s, d.S+"(") && walk(d) {
+			if d != m && refersTo(s, d.S) && walk(d) {
 				return true
 			}
 		}
 		return false
 	}
 	return walk(from)
+}
+
+// refersTo reports whether the source s has the identifier name.
+func refersTo(s, name string) bool {
+	for i := 0; ; {
+		j := strings.Index(s[i:], name)
+		if j < 0 {
+			return false
+		}
+		j += i
+		end := j + len(name)
+		before := j == 0 || !isIdentByte(s[j-1])
+		after := end == len(s) || !isIdentByte(s[end])
+		if before && after {
+			return true
+		}
+		i = j + 1
+	}
+}
+
+func isIdentByte(c byte) bool {
+	return c == '_' || c >= '0' && c <= '9' || c >= 'a' && c <= 'z' || c >= 'A' && c <= 'Z' || c >= 0x80
 }
 
 func genSet(r *rand.Rand, html bool, off map[string]bool) *Set {
